@@ -45,7 +45,7 @@ COMPONENTS = {
     "real": ["partitura.score (Score, Part, unfold*, iter_all)", "partitura.performance", "exportmusicxml", "exportmidi", "exportmatch", "utils.music (note arrays, pianoroll, transpose)", "musicanalysis estimators", "mido", "lxml"],
     "stub": ["export targets: in-memory file-like objects with injected write/close errors and SimFS paths"],
 }
-PROBES = ("result_container_checked", "two_clients_mid_iteration", "nested_loop", "partial_loop", "loop_body_calls_entry_point", "repeat_after_other_op", "export_fault_fired", "lazy_generator_interleaved", "op_raised_consistently")
+PROBES = ("beat_setting_changed_between_views", "result_container_checked", "two_clients_mid_iteration", "nested_loop", "partial_loop", "loop_body_calls_entry_point", "repeat_after_other_op", "export_fault_fired", "lazy_generator_interleaved", "op_raised_consistently")
 
 SEGMENT_SHAPE = "TimePoint.ending_objects[Segment]|TimePoint.starting_objects[Segment]"
 INTERVALS = [(2, "M"), (3, "m"), (5, "P"), (4, "A"), (1, "P")]
@@ -79,7 +79,26 @@ ATOMIC = [
     ("na_pianoroll", 2),
     ("na_estimate", 2),
     ("na_to_score", 1),
+    ("set_beats", 2),
 ]
+# documented in-place settings of what a beat is (not read-only: they stand between two looks at the same part)
+MBEATS_A = {"6/8": 3, "9/8": 1, "12/8": 2, "4/4": 2, "3/4": 1, "2/2": 1, "5/8": 1, "7/8": 1, "3/8": 3, "2/4": 1, "5/4": 1, "6/4": 3, "3/2": 1}
+MBEATS_B = {"6/8": 1, "9/8": 3, "12/8": 4, "4/4": 4, "3/4": 3, "2/2": 2, "5/8": 5, "7/8": 7, "3/8": 1, "2/4": 2, "5/4": 5, "6/4": 2, "3/2": 3}
+
+
+def apply_beats(part, variant):
+    try:
+        if variant == 0:
+            part.use_notated_beat()
+        elif variant == 1:
+            part.use_musical_beat()
+        elif variant == 2:
+            part.use_musical_beat(dict(MBEATS_A))
+        else:
+            part.set_musical_beat_per_ts(dict(MBEATS_B))
+        return "ok"
+    except Exception as e:
+        return "raised:" + type(e).__name__
 ITER = [("loop", 5), ("partial", 3), ("nested", 4), ("loop_call", 4), ("iter_unfolded", 2), ("perf_loop", 3)]
 
 
@@ -107,6 +126,8 @@ def _gen_atomic(o, nparts, has_perf, cfg):
         op.update(target=tgt, update_ids=o.random() < 0.5, ignore_leaps=o.random() < 0.7)
     elif k == "estimate":
         op.update(target="part%d" % o.randrange(nparts), what=o.choice(("spelling", "voices", "key")))
+    elif k == "set_beats":
+        op.update(target="part%d" % o.randrange(nparts), variant=o.randrange(4))
     elif k == "transpose":
         op.update(target=tgt, interval=o.randrange(len(INTERVALS)))
     elif k == "len_getitem":
@@ -397,7 +418,9 @@ class World(object):
         self.path_counter = 0
         self.snapper = FP.Snapshotter()
         # note arrays "taken earlier" and passed to array-level entry points; part of the world snapshot
-        self.arrays = [p.note_array(include_pitch_spelling=True, include_staff=True) for p in self.score.parts]
+        # (taken from an equal score built for the purpose: the shared score itself has not been looked at by anybody when
+        # the first client arrives)
+        self.arrays = [p.note_array(include_pitch_spelling=True, include_staff=True) for p in build.build_score(self.asc, with_pages=True).parts]
 
     def roots(self):
         r = [self.score, self.arrays]
@@ -707,7 +730,7 @@ def _execute_in(case, res, fs):
     parts = w.score.parts
     res.log.add("world", "init", {"parts": [p.id for p in parts], "perf": w.perf is not None, "clients": len(case["programs"]), "profile": case["knobs"].get("profile")})
     g0 = G.fingerprint()
-    state = {"snap": w.snap(), "results": {}, "seen_ops": set(), "fresh": {}, "last_op": None, "iterating": {}, "repeat_after_other": False, "overlap": False, "fault_fired": False}
+    state = {"snap": w.snap(), "results": {}, "seen_ops": set(), "fresh": {}, "last_op": None, "iterating": {}, "repeat_after_other": False, "overlap": False, "fault_fired": False, "beats": {}}
 
     def check_globals(op):
         g1 = G.fingerprint()
@@ -735,11 +758,17 @@ def _execute_in(case, res, fs):
         # finding is reported, not its consequences for later calls
         return tuple(any(True for _ in p.iter_all(w.S.Segment)) for p in parts)
 
+    def beat_state():
+        return repr(sorted((pi, tuple(h)) for pi, h in state["beats"].items()))
+
     def fresh_result(op, segs=None):
         segs = seg_state() if segs is None else segs
-        key = opkey(op) + repr(segs)
+        key = opkey(op) + repr(segs) + beat_state()
         if key not in state["fresh"]:
             fw = World(case, res, simfs=fs)
+            for pi, hist in sorted(state["beats"].items()):
+                for v in hist:
+                    apply_beats(fw.score.parts[pi], v)
             for has, p in zip(segs, fw.score.parts):
                 if has:
                     w.S.add_segments(p)
@@ -749,6 +778,16 @@ def _execute_in(case, res, fs):
 
     def atomic(cname, op):
         name = op["k"] + (":auto" if op.get("auto_unfold") else "")
+        if op["k"] == "set_beats":
+            pi = int(op["target"][4:]) % len(parts)
+            out = apply_beats(parts[pi], op["variant"])
+            state["beats"].setdefault(pi, []).append(op["variant"])
+            state["snap"] = w.snap()
+            res.probe("beat_setting_changed_between_views")
+            res.log.add(cname, name, {"op": op, "result": out})
+            res.sigadd(cname, name, None)
+            state["last_op"] = opkey(op)
+            return
         if state["last_op"] is not None and state["last_op"] != opkey(op) and opkey(op) in state["seen_ops"]:
             res.probe("repeat_after_other_op")
             state["repeat_after_other"] = True
@@ -778,7 +817,7 @@ def _execute_in(case, res, fs):
         if isinstance(r, tuple) and len(r) == 2 and r[0] == "raised":
             res.probe("op_raised_consistently")
         if not op.get("fault") or not faulted:
-            key = opkey(op) + repr(segs_before)
+            key = opkey(op) + repr(segs_before) + beat_state()
             prev = state["results"].get(key)
             if prev is not None and prev != dg:
                 res.violation("O4-repeatable", name, "%s gave a different result when called again on the unchanged argument" % (op,), site="same-world")
